@@ -92,6 +92,7 @@ Definition pe_parse (pe_ok : bool) (img : bytes) : outcome pestate :=
       else if existsb (fun s => l_size L <? fst s + snd s) (hashed_secs L) then Err 5
       else if l_size L <? l_sum L then Err 6
       else if l_size L - l_sum L <? l_certsize L then Err 7
+      else if negb (l_certsize L =? 0) && (l_size L <? l_va L + l_certsize L) then Err 8   (* the table is read in full *)
       else Ret (mkPE L img (l_va L) (l_certsize L) (sub (l_dd4 L) 8 img) (sub (l_va L) (l_certsize L) img))
   end.
 
